@@ -47,7 +47,7 @@ def cases(tier, seed):
                 "id": f"c16-{k}", "fact": fact, "cal": cal, "strategy": strategy, "ts": ts,
                 "init": rng.choice(["exact", "inexact"]), "equal_noise": rng.random() < 0.5, "nu": rng.randint(1, 3),
                 "theta": {"a": rng.uniform(0.5, 1.5), "b": rng.uniform(0.2, 0.8), "u0": rng.uniform(0.6, 1.4), "base": rng.uniform(0.5, 2.0), "noise": rng.uniform(0.05, 0.3)},
-                "seedw": rng.randrange(10**9), "cost": 30.0, "all_reverse": tier == "thorough", "exact_first_datum": k % 2 == 1,
+                "seedw": rng.randrange(10**9), "cost": 30.0, "all_reverse": tier == "thorough", "exact_first_datum": k % 2 == 1, "relin": (k // 2) % 2 == 1,
             }
         )
     return out
@@ -109,7 +109,9 @@ def _build_F(case, param, only=None):
         elif cal == "mle":
             solver = probdiffeq.solver_mle(strategy=strat, constraint=cst)
         else:
-            solver = probdiffeq.solver_dynamic(strategy=strat, constraint=cst, stop_gradient_through_calibration=False)
+            # both options of the dynamic solver are planned independently (seed C16-s4 wired one to the other)
+            solver = probdiffeq.solver_dynamic(strategy=strat, constraint=cst, stop_gradient_through_calibration=False,
+                                               re_linearize_after_calibration=bool(case.get("relin", False)))
         sol = ivpsolve.solve_fixed_grid(solver=solver)(prior, grid=jnp.asarray(GRID))
         noise = th["noise"]
         out = []
